@@ -302,6 +302,26 @@ func factsReceive() {
 	fo := parse("pkg/receive/handler_otlp.go")
 	emitList("receiveOTLPHTTPGateCalls", "pkg/receive/handler_otlp.go receiveOTLPHTTP: calls of writeGate.Start / writeGate.Done",
 		callSeq(body(fn(fo, "Handler", "receiveOTLPHTTP")), "writeGate.Start", "writeGate.Done"))
+	// C24: the gate is looked up once per request: the statements that call WriteGate()
+	lookups := func(fd *ast.FuncDecl) []string {
+		var out []string
+		if fd == nil || fd.Body == nil {
+			return out
+		}
+		ast.Inspect(fd.Body, func(n ast.Node) bool {
+			switch st := n.(type) {
+			case *ast.AssignStmt, *ast.ExprStmt, *ast.DeferStmt, *ast.ReturnStmt:
+				if len(calls(st, "WriteGate")) > 0 {
+					out = append(out, text(st))
+					return false
+				}
+			}
+			return true
+		})
+		return out
+	}
+	emitList("receiveHTTPGateLookup", "pkg/receive/handler.go receiveHTTP: statements that call Limiter.WriteGate()", lookups(fn(f, "Handler", "receiveHTTP")))
+	emitList("receiveOTLPHTTPGateLookup", "pkg/receive/handler_otlp.go receiveOTLPHTTP: statements that call Limiter.WriteGate()", lookups(fn(fo, "Handler", "receiveOTLPHTTP")))
 	// C24: the gate wrappers of pkg/gate and the limiter's decision to build a gate
 	gf := parse("pkg/gate/gate.go")
 	emitStr("gateNewNoopCond", "pkg/gate/gate.go New: when the noop gate is used", firstIfCond(body(fn(gf, "", "New")), "maxConcurrent"))
